@@ -17,9 +17,16 @@ Tie:
        misbehaving peer): only the receiver's state machine can stop such a handshake.  Cells on which a gate sweep
        disagrees are turned into such histories first.  Every delivery is one step of the extracted model (pre-state, input, oracle answers read off the
        bytes / the post-state) and must agree on outcome and post-state.
+  (iii) DTLS 1.0 / 1.2 (harness option dtls=1): the same live machinery with 12-byte handshake headers, message_seq numbered as
+       the (deviating) sender would number its sequence, records re-sealed with epoch / sequence number, HelloVerifyRequest round,
+       retransmitted copies (`retx`: same message_seq again), fragmented legal traces; the DTLS branches of the <= 1.2 gate
+       (message_seq classes expected / zero / stale / future x haveCookie x flags) swept exhaustively against gate12d.
+       Reading (ck.assumptions): a copy with an old message_seq is a retransmission and is dropped; a message with the EXPECTED
+       message_seq and a type the state does not allow is a deviation and must be fatal.
 Search oracle (Impl vs Spec, never via the model): whenever a side reports completion, the messages it accepted form
 a legal sequence of the negotiated mode (grammar re-implemented here from the RFC figures, cross-checked against the
-Coq grammar); every accepted message keeps the log a prefix of a legal sequence.
+Coq grammar); every accepted message keeps the log a prefix of a legal sequence; DTLS: a message with the expected message_seq that no legal
+sequence continues with is not silently dropped.
 """
 import os, re, json
 import vlib
@@ -735,6 +742,18 @@ def run(ck):
                         side.acc.append(FIN)
                     else:
                         side.opaque = True
+                # DTLS (the reading in ck.assumptions): a handshake message that carries the message_seq the receiver expects next is the
+                # next message of the peer's sequence; if no legal sequence of the negotiated mode continues with its type, the answer
+                # must be a fatal alert - not a silent drop (that is for retransmissions), and not acceptance (judged below)
+                if (st.dtls() and st.kind == "H" and st.form in ("p", "s") and st.g == st.t and side.md is not None and not side.opaque and not side.flagged
+                        and not st.dead_before() and not st.pre["done"] and st.msn == st.pre["lm"] + 1 and st.outcome().startswith("Drop")
+                        and not is_legal_prefix(side.md, side.acc + [st.t])):
+                    seq = ",".join(str(x) for x in side.acc)
+                    sig = "deviation-dropped:dtls:%s:after=%s:msg=%s" % ("server" if side.server else "client",
+                                                                         NAMES.get(side.acc[-1], side.acc[-1]) if side.acc else "-", NAMES.get(st.t, st.t))
+                    ck.spec_violation(sig, "a DTLS %s silently dropped %s although it carried the expected message_seq %d and no legal sequence continues with it (accepted so far: %s): "
+                                      "a deviation of the peer's sequence must be fatal" % ("server" if side.server else "client", NAMES.get(st.t, st.t), st.msn, seq),
+                                      {"harness": "h_hs", "case": scripts[si], "observed": "dropped, no alert; accepted so far: " + seq, "mode": side.md, "expected_by_spec": "fatal alert"})
                 if st.kind in ("H", "C") and st.logged() and not (st.kind == "C" and st.pre["v"] == 1):
                     hl = 12 if st.dtls() else 4
                     if st.kind == "C":
@@ -866,4 +885,6 @@ def replay(ck, path):
     print("expected: ", rp.get("expected_by_spec"))
     for seg in outs[-1].split(" | "):
         for st in parse_steps(seg):
-            print("   %s %s%s %s -> hs=%s done=%s err=%s %s" % (st.side, st.kind, st.t, "accepted" if st.accepted() else "refused", st.post["hs"], st.post["done"], st.post["err"], "HSDONE" if st.hsdone else ""))
+            what = "accepted" if st.logged() else ("refused" if not st.accepted() else {"Drop:0": "dropped", "Drop:1": "dropped (retransmission)", "Hvr": "answered with HelloVerifyRequest", "Ignore": "ignored"}.get(st.outcome(), st.outcome()))
+            seq = (" message_seq=%d (lastMsn %d)" % (st.msn, st.pre["lm"])) if (st.dtls() and st.kind == "H") else ""
+            print("   %s %s%s%s %s -> hs=%s done=%s err=%s %s" % (st.side, st.kind, st.t, seq, what, st.post["hs"], st.post["done"], st.post["err"], "HSDONE" if st.hsdone else ""))
